@@ -371,4 +371,43 @@ def Txn.expire (sch : SchemaEval) (t : Txn) (nowMs : Int) (nu : Nu) : Res (Txn Ã
   | .ok (cat, nu, deleted) =>
     if deleted > 0 then .ok ({ catalog := cat, dirty := true }, deleted, nu) else .ok (t, 0, nu)
 
+/-! ### Transaction.Clean -/
+
+/-- the path `"_id.ts"` of `bsonkit.Get(doc, "_id.ts")`, pre-split (`splitPath "_id.ts"`; string
+    splitting does not reduce in the kernel, the `#guard` below checks the two agree). -/
+def tsPath : Path := ["_id", "ts"]
+
+#guard splitPath "_id.ts" == tsPath
+
+/-- `now.T - uint32(age/time.Second)` in uint32 arithmetic (wraps around). -/
+def cutoffT (nowT ageS : Nat) : Nat := (nowT + 4294967296 - ageS % 4294967296) % 4294967296
+
+/-- the prefix loop of Transaction.Clean: the number of leading events (starting at index `i`)
+    that are both "willing" (`afterMin`) and "forced" (`beyondMax`); stops at the first keeper.
+    The timestamp is whatever value sits at `_id.ts` (compared with bsonkit.Compare). -/
+def cleanDropped (minIndex maxIndex : Int) (minAgeZero : Bool) (minT maxT nowI : Nat) : Nat â†’ List SDoc â†’ Nat
+  | _, [] => 0
+  | i, sd :: r =>
+    let ts := getP sd.doc tsPath
+    let afterMin := (i : Int) < minIndex && (minAgeZero || V.cmp ts (.ts minT 0) == .lt)
+    let beyondMax := (i : Int) < maxIndex || V.cmp ts (.ts maxT nowI) == .lt
+    if afterMin && beyondMax then 1 + cleanDropped minIndex maxIndex minAgeZero minT maxT nowI (i + 1) r else 0
+
+/-- Transaction.Clean(minSize, maxSize, minAge, maxAge) with `now = bsonkit.Now() = (nowT, nowI)`;
+    `minAgeS`/`maxAgeS` = `age/time.Second`, `minAgeZero` = `minAge == 0` (on the Duration, so a
+    sub-second `minAge` has `minAgeS = 0` but `minAgeZero = false`). The dropped prefix is removed
+    from the oplog's document list (`Documents.Remove(List[0])` Ã— dropped; the oplog has no
+    indexes); catalog and dirty flag change only if something was dropped. -/
+def Txn.clean (t : Txn) (minSize maxSize : Int) (minAgeS maxAgeS : Nat) (minAgeZero : Bool) (nowT nowI : Nat) : Txn :=
+  let oplog := (t.catalog.get? oplogHandle).getD (newColl false)
+  let minT := cutoffT nowT minAgeS
+  let maxT := cutoffT nowT maxAgeS
+  let n : Int := oplog.docs.length
+  let minIndex := n - minSize
+  let maxIndex := n - maxSize
+  let dropped := cleanDropped minIndex maxIndex minAgeZero minT maxT nowI 0 oplog.docs
+  if dropped > 0 then
+    { catalog := t.catalog.set oplogHandle { oplog with docs := oplog.docs.drop dropped }, dirty := true }
+  else t
+
 end Lungo
